@@ -1,5 +1,5 @@
 (** C07 — write capability is required to author entries and is never lost. *)
-From ID Require Import Model.StoreOps Proofs.StoreFacts.
+From ID Require Import Model.StoreOps Model.Replica Proofs.StoreFacts Proofs.CapFacts.
 
 (** no import (of any capability, for any document) downgrades a stored write capability *)
 Theorem C07_import_keeps_write : forall T ns c ns0 sk,
@@ -28,9 +28,40 @@ Proof. exact readonly_delete_refused. Qed.
 Theorem C07_put_keeps_capabilities : forall ks EH T e, t_namespaces (fst (fs_put ks EH T e)) = t_namespaces T.
 Proof. exact fs_put_namespaces. Qed.
 
+(** over whole histories of store operations (imports of any capability for any document, opens,
+    closes, reopen of the store with or without rebuilding derived tables, writes, removals of OTHER
+    documents, ...): a stored write capability is never lost *)
+Theorem C07_history_keeps_write : forall ks EH MF CAP ops s ns sk,
+  Forall (fun o => o <> SRemove ns) ops ->
+  get_cap (s_tables s) ns = Some (Some sk) ->
+  get_cap (s_tables (fold_left (fun s o => fst (store_step ks EH MF CAP s o)) ops s)) ns = Some (Some sk).
+Proof. exact history_keeps_write. Qed.
+
+(** only import and removal touch the capability table at all *)
+Theorem C07_step_keeps_capabilities : forall ks EH MF CAP s o, touches_caps o = false ->
+  t_namespaces (s_tables (fst (store_step ks EH MF CAP s o))) = t_namespaces (s_tables s).
+Proof. exact step_keeps_capabilities. Qed.
+
+(** a read-only document in the store: local writes are refused and leave the whole store unchanged;
+    remote entries are handled exactly as on a writable document *)
+Theorem C07_readonly_store_refuses_local : forall ks EH MF CAP s ns, writable (s_tables s) ns = Some false ->
+  (forall au k h l now, exists er, store_step ks EH MF CAP s (SInsert ns au k h l now) = (s, RInsert (Err er))) /\
+  (forall au k now, store_step ks EH MF CAP s (SDelete ns au k now) = (s, RInsert (Err EReadOnly))).
+Proof. exact readonly_store_refuses_local. Qed.
+Theorem C07_remote_independent_of_capability : forall ks EH MF CAP s ns e ok now w,
+  writable (s_tables s) ns = Some w ->
+  store_step ks EH MF CAP s (SRemote ns e ok now) =
+  (let '(T', r, _) := replica_insert_remote ks EH MF (s_tables s) now ns (mkW e ok) 0 0 in
+   (mkS T' (s_open s) (s_clock s), RInsert r)).
+Proof. exact remote_independent_of_capability. Qed.
+
 Print Assumptions C07_import_keeps_write.
 Print Assumptions C07_import_upgrades.
 Print Assumptions C07_import_touches_only_named.
 Print Assumptions C07_readonly_insert_refused.
 Print Assumptions C07_readonly_delete_refused.
 Print Assumptions C07_put_keeps_capabilities.
+Print Assumptions C07_history_keeps_write.
+Print Assumptions C07_step_keeps_capabilities.
+Print Assumptions C07_readonly_store_refuses_local.
+Print Assumptions C07_remote_independent_of_capability.
